@@ -196,6 +196,23 @@ def case_panel(rng, tier):
     sc = np.abs(f0) + np.abs(f1) + 1e-9 * (np.abs(f0) + np.abs(f1)).max() + 1e-300
     c.judge('fext(inc) = fext(0) + inc*(fext(1)-fext(0))', float((np.abs(fext - (f0 + inc * (f1 - f0))) / sc).max()), 1e-12)
     c.expect('fext(0) is the vector of the constant forces alone', np.array_equal(f0, fc))
+    # the same object after its definition changed (longer / wider panel, other edge flags, m and n exchanged): the load
+    # vector must be the virtual work on the displacements the object reports NOW
+    if model in ('plate', 'cpanel') and (forces_cte or forces_inc):
+        what = str(rng.choice(['a', 'b', 'flags', 'swap_mn']))
+        if what == 'a':
+            p.a = p.a * float(rng.uniform(1.05, 1.6))
+        elif what == 'b':
+            p.b = p.b * float(rng.uniform(1.05, 1.6))
+        elif what == 'flags':
+            gen.apply_flags(p, gen.flags(rng, style=str(rng.choice(['ss', 'clamped', 'binary', 'real']))))
+        else:
+            p.m, p.n = p.n, p.m
+        c.tag('redefined:' + what)
+        c.desc['redefined'] = what
+        fext2 = np.asarray(p.calc_fext(inc=inc, size=d['size'], col0=col0, silent=True), dtype=float)
+        p.calc_k0(silent=True)
+        judge_work(c, 'panel after redefinition (%s):' % what, fext2[col0:col0 + own], cs[:3], uvw_fn, forces_cte, forces_inc, inc)
     # linear static through the package's own driver (Analysis.static -> sparse.solve), restrained panels only
     if fl['_style'] in ('ss', 'clamped') and (forces_cte or forces_inc) and model != 'plate_w':
         ps = mk(forces_cte, forces_inc)
